@@ -100,7 +100,7 @@ func main() {
 	// the process's local time zone is the machine's business too: in a quarter of the
 	// processes it is a zone with daylight saving time (or, where no zone can be loaded,
 	// one with an odd fixed offset).  Nothing the code under test reports depends on it.
-	if c.Batch%4 == 1 && os.Getenv("VMON_NOTZ") == "" {
+	if (c.Batch%4 == 1 || rc != nil) && os.Getenv("VMON_NOTZ") == "" { // (and in replays: the case may come from such a process)
 		zones := []string{"Europe/London", "America/New_York", "Australia/Sydney", "Asia/Kathmandu"}
 		if loc, err := time.LoadLocation(zones[(c.Batch/4)%len(zones)]); err == nil {
 			time.Local = loc
